@@ -22,12 +22,14 @@ def small_tree(draw, mode):
 
 
 @st.composite
-def scen_cases(draw, kinds=KINDS, comps=("gzip", "zstd", "lz4", "xz")):
+def scen_cases(draw, kinds=KINDS, comps=("gzip", "zstd", "lz4", "xz", "default")):
     kind = draw(st.sampled_from(list(kinds)))
     B = 4096
     o = dict(comp=draw(st.sampled_from(list(comps))), X=None, B=B, T=draw(st.booleans()), e=draw(st.booleans()), j=draw(st.sampled_from([1, 1, 2])),
              Q=None, devblk=None, defaults={}, source_date_epoch=None, xattr_styles=[0], quote_all=False, loc_style=0, packdir_mode=1)
     case = dict(kind=kind, opts=o)
+    # the output file is named relative to the working directory in half of the packer runs
+    case["relout"] = draw(st.booleans())
     if kind == "gen_dir":
         o.update(keep_time=draw(st.booleans()), keep_xattr=draw(st.booleans()), no_hard_links=False)
         case.update(mode="dir", nodes=small_tree(draw, "dir"))
@@ -49,6 +51,10 @@ def scen_cases(draw, kinds=KINDS, comps=("gzip", "zstd", "lz4", "xz")):
         if kind == "diff":
             case["archive2"] = draw(st.one_of(st.just(None), tarimg.archives(B=B, max_entries=4)))
     return case
+
+
+def _c(o):
+    return ["-c", o["comp"]] if o["comp"] != "default" else []
 
 
 def _archive_bytes(ar):
@@ -111,7 +117,7 @@ def prepare(case, d, variant="plain"):
         return ctx
     # the remaining kinds need an image
     img = os.path.join(d, "in.sqfs")
-    r = vcommon.run([vcommon.tool("plain", "tar2sqfs"), "-q", "-c", o["comp"], "-b", str(o["B"]), img], stdin=data, timeout=60)
+    r = vcommon.run([vcommon.tool("plain", "tar2sqfs"), "-q"] + _c(o) + ["-b", str(o["B"]), img], stdin=data, timeout=60)
     if r.rc != 0:
         raise vcommon.Inconclusive("image build failed")
     ctx["img"] = img
@@ -178,10 +184,10 @@ def run(ctx, rundir, env=None, preload=None, feed_chunk=0, drain_chunk=0, timeou
     cwd = rundir
     if kind in ("gen_dir", "gen_file"):
         out = os.path.join(rundir, "out.sqfs")
-        cmd = [vcommon.tool(v, "gensquashfs")] + ctx["args"] + [out]
+        cmd = [vcommon.tool(v, "gensquashfs")] + ctx["args"] + ["out.sqfs" if case.get("relout") else out]
     elif kind == "t2s":
         out = os.path.join(rundir, "out.sqfs")
-        cmd = [vcommon.tool(v, "tar2sqfs"), "-q", "-c", o["comp"], "-b", str(o["B"]), "-j", str(o["j"])] + (["-T"] if o["T"] else []) + (["-e"] if o["e"] else []) + (["-f"] if ctx.get("force") else []) + [out]
+        cmd = [vcommon.tool(v, "tar2sqfs"), "-q"] + _c(o) + ["-b", str(o["B"]), "-j", str(o["j"])] + (["-T"] if o["T"] else []) + (["-e"] if o["e"] else []) + (["-f"] if ctx.get("force") else []) + ["out.sqfs" if case.get("relout") else out]
         stdin = ctx["stdin"]
     elif kind == "s2t":
         cmd = [vcommon.tool(v, "sqfs2tar")] + (["-c", case["s2t_codec"]] if case.get("s2t_codec") else []) + [ctx["img"]]
